@@ -275,3 +275,182 @@ pub(crate) fn mk_tileset(id: u32, tile_count: u32, tw: u16, th: u16, pixels: Vec
         pixels: Some(crate::pixel::Pixels::Rgba(pixels)),
     }
 }
+
+// ---------------------------------------------------------------------------------------------------------
+// Instrumented readers (C13 / C14). Positions and lengths stay concrete on every path (R10); the *threshold*
+// (cut offset / fault offset) is symbolic and only ever compared with the concrete position.
+use std::io::{self, Read};
+
+/// delivers at most `max` bytes per call (max = 1: one byte at a time); `interrupt_every` > 0 makes every k-th call
+/// fail once with ErrorKind::Interrupted before any byte is delivered
+pub(crate) struct ChoppyReader<'a> {
+    pub data: &'a [u8],
+    pub pos: usize,
+    pub max: usize,
+    pub calls: usize,
+    pub interrupt_every: usize,
+}
+impl<'a> Read for ChoppyReader<'a> {
+    fn read(&mut self, buf: &mut [u8]) -> io::Result<usize> {
+        self.calls += 1;
+        if self.interrupt_every > 0 && self.calls % self.interrupt_every == 0 {
+            return Err(io::Error::from(io::ErrorKind::Interrupted));
+        }
+        let left = self.data.len() - self.pos;
+        let mut n = if buf.len() < left { buf.len() } else { left };
+        if n > self.max {
+            n = self.max;
+        }
+        let mut i = 0;
+        while i < n {
+            buf[i] = self.data[self.pos + i];
+            i += 1;
+        }
+        self.pos += n;
+        Ok(n)
+    }
+}
+
+/// behaves like a slice reader up to byte offset `limit` (symbolic); a read that would cross it either reports end of
+/// input (`fault` = None: the file was cut there) or fails with the given error kind (a hard I/O error at that offset)
+pub(crate) struct LimitReader<'a> {
+    pub data: &'a [u8],
+    pub pos: usize,
+    pub limit: usize,
+    pub fault: Option<io::ErrorKind>,
+}
+impl<'a> Read for LimitReader<'a> {
+    fn read(&mut self, buf: &mut [u8]) -> io::Result<usize> {
+        let left = self.data.len() - self.pos;
+        let n = if buf.len() < left { buf.len() } else { left };
+        if self.pos + n > self.limit {
+            // (a real cut file would still deliver the bytes before the cut; read_exact fails either way)
+            return match self.fault {
+                None => Ok(0),
+                Some(k) => Err(io::Error::from(k)),
+            };
+        }
+        let mut i = 0;
+        while i < n {
+            buf[i] = self.data[self.pos + i];
+            i += 1;
+        }
+        self.pos += n;
+        Ok(n)
+    }
+}
+
+pub(crate) fn any_error_kind() -> io::ErrorKind {
+    let k: u8 = kani::any();
+    match k % 6 {
+        0 => io::ErrorKind::NotFound,
+        1 => io::ErrorKind::PermissionDenied,
+        2 => io::ErrorKind::ConnectionReset,
+        3 => io::ErrorKind::TimedOut,
+        4 => io::ErrorKind::BrokenPipe,
+        _ => io::ErrorKind::Other,
+    }
+}
+
+// ---------------------------------------------------------------------------------------------------------
+// Side-table model of the palette's hash map (nohash IntMap<u32, ColorPaletteEntry>): hashbrown's insert / probe
+// loops (SIMD group scans) make even two insertions cost minutes and gigabytes under CBMC. These stubs replace
+// std::collections::HashMap::{insert, get, len} by an association list with the same observable behaviour
+// (insert returns the previous value for an existing key, get finds the latest value, len counts distinct keys).
+// Model restriction (part of the claim): one palette map is live at a time in a harness -- a second map created
+// later shares the table, which is only used where the second map replaces the first (new-over-legacy precedence).
+use std::borrow::Borrow;
+use std::collections::HashMap;
+use std::hash::{BuildHasher, Hash};
+
+const SIDE_CAP: usize = 8;
+static mut SIDE_KEYS: [u32; SIDE_CAP] = [0; SIDE_CAP];
+static mut SIDE_VALS: [Option<ColorPaletteEntry>; SIDE_CAP] = [None, None, None, None, None, None, None, None];
+static mut SIDE_N: usize = 0;
+
+pub(crate) fn side_table_reset() {
+    unsafe {
+        SIDE_N = 0;
+    }
+}
+
+pub(crate) fn hm_insert<K, V, S, A>(_this: &mut HashMap<K, V, S, A>, k: K, v: V) -> Option<V>
+where
+    K: Eq + Hash,
+    S: BuildHasher,
+    A: std::alloc::Allocator,
+{
+    assert!(core::mem::size_of::<K>() == 4 && core::mem::size_of::<V>() == core::mem::size_of::<ColorPaletteEntry>(), "side table models IntMap<u32, ColorPaletteEntry> only");
+    unsafe {
+        let key: u32 = core::mem::transmute_copy(&k);
+        core::mem::forget(k);
+        let val: ColorPaletteEntry = core::mem::transmute_copy(&v);
+        core::mem::forget(v);
+        let mut i = 0;
+        while i < SIDE_N {
+            if SIDE_KEYS[i] == key {
+                #[allow(static_mut_refs)]
+                let old = SIDE_VALS[i].replace(val);
+                return match old {
+                    Some(o) => {
+                        let r: V = core::mem::transmute_copy(&o);
+                        core::mem::forget(o);
+                        Some(r)
+                    }
+                    None => None,
+                };
+            }
+            i += 1;
+        }
+        assert!(SIDE_N < SIDE_CAP, "side table capacity");
+        SIDE_KEYS[SIDE_N] = key;
+        SIDE_VALS[SIDE_N] = Some(val);
+        SIDE_N += 1;
+        None
+    }
+}
+
+/// `ColorPalette::color` over the side table (std's generic `HashMap::get` cannot be stubbed by Kani 0.68)
+pub(crate) fn side_color(_this: &ColorPalette, index: u32) -> Option<&ColorPaletteEntry> {
+    unsafe {
+        let mut i = 0;
+        while i < SIDE_N {
+            if SIDE_KEYS[i] == index {
+                #[allow(static_mut_refs)]
+                return SIDE_VALS[i].as_ref();
+            }
+            i += 1;
+        }
+        None
+    }
+}
+
+pub(crate) fn hm_len<K, V, S, A: std::alloc::Allocator>(_this: &HashMap<K, V, S, A>) -> usize {
+    unsafe { SIDE_N }
+}
+
+// ---------------------------------------------------------------------------------------------------------
+// C12: recording replacements for the two std reservation entry points the crate uses with file-declared sizes.
+// They record the largest request in bytes and hand back an EMPTY vector (growth on demand is what the real ones
+// do too), so symbolic declared sizes never become symbolic allocation sizes (R10).
+pub(crate) static mut MAX_RESERVATION: u128 = 0;
+pub(crate) fn note_reservation(elems: usize, elem_size: usize) {
+    let bytes = elems as u128 * elem_size as u128;
+    unsafe {
+        if bytes > MAX_RESERVATION {
+            MAX_RESERVATION = bytes;
+        }
+    }
+}
+pub(crate) fn recording_with_capacity<T>(capacity: usize) -> Vec<T> {
+    note_reservation(capacity, core::mem::size_of::<T>());
+    Vec::new()
+}
+pub(crate) fn max_reservation() -> u128 {
+    unsafe { MAX_RESERVATION }
+}
+/// the property's bound for one reservation: 64 MiB + 8192 bytes per input byte supplied
+pub(crate) fn reservation_bound(input_len: usize) -> u128 {
+    (64u128 << 20) + 8192u128 * input_len as u128
+}
+
